@@ -50,4 +50,58 @@ Lemma band_one_asset h n ov sv :
     else if negb v0 && (c_V202EnhanceActivation c <=? h) then RSel [(n, 0)]   (* outside, from 2.0.2: rate 0 *)
     else RErr.                                                            (* outside, before: no rates for the block *)
 Proof. cbn [band_filter]. rewrite Z.eqb_refl. cbv zeta. destruct (in_band _ ov sv); [reflexivity|]. destruct (_ && _); reflexivity. Qed.
+
+(* ---- the holding window (C06: a held batch is considered exactly once) -------------------------- *)
+Lemma in_zrange_iff k : forall n lo, In k (zrange lo n) <-> lo <= k < lo + Z.of_nat n.
+Proof.
+  induction n as [|n IH]; intros lo; cbn [zrange]; [split; [contradiction|lia]|].
+  split.
+  - intros [<-|H]; [lia|]. apply IH in H. lia.
+  - intros H. destruct (Z.eq_dec lo k) as [->|N]; [left; reflexivity|right; apply IH; lia].
+Qed.
+
+(* the heights a rated block [cur] looks at: from the most recent rated height below it up to cur-1 *)
+Definition window (s : db) (cur : Z) : list Z :=
+  zrange (last_rated_below s cur) (Z.to_nat (cur - last_rated_below s cur)).
+
+Lemma window_spec s cur g : In g (window s cur) <-> last_rated_below s cur <= g < cur.
+Proof. unfold window. rewrite in_zrange_iff. lia. Qed.
+
+(* last_rated_below is the maximum of the rated heights below h *)
+Lemma last_rated_below_ge s h k m : rates s !! k = Some m -> 0 <= k < h -> k <= last_rated_below s h.
+Proof.
+  unfold last_rated_below.
+  apply (map_fold_ind (fun r (mm : gmap Z (gmap ticker Z)) => forall k m, mm !! k = Some m -> 0 <= k < h -> k <= r)).
+  - intros k' m' H. rewrite lookup_empty in H. discriminate.
+  - intros i x mm r Hnone IH k' m' H Hk.
+    destruct (Z.eq_dec i k') as [->|N].
+    + destruct (Z.ltb_spec k' h); cbn [andb]; [|lia]. destruct (Z.ltb_spec r k'); lia.
+    + rewrite lookup_insert_ne in H by exact N. specialize (IH _ _ H Hk).
+      destruct ((i <? h) && (r <? i)) eqn:E; [|exact IH]. apply andb_prop in E as [_ E]. apply Z.ltb_lt in E. lia.
+Qed.
+
+(* once a rated height c1 lies between a held height g and a later block c2, c2 does not look at g:
+   the batch held at g was looked at by (at most) the first rated block after g and by no later one *)
+Theorem held_height_not_revisited s2 c1 c2 g m :
+  rates s2 !! c1 = Some m -> 0 <= c1 < c2 -> g < c1 -> ~ In g (window s2 c2).
+Proof.
+  intros Hr Hc Hg Hin. apply window_spec in Hin. pose proof (last_rated_below_ge s2 c2 c1 m Hr Hc). lia.
+Qed.
+
+(* ... and the first rated block after g does look at it (when g is not below the previous rated height) *)
+Theorem held_height_visited s cur g : 0 < cur -> last_rated_below s cur <= g < cur -> In g (window s cur).
+Proof. intros _ H. apply window_spec. exact H. Qed.
+
+(* apply_holding iterates exactly over this window *)
+Lemma apply_holding_uses_window cm cur s rates avgs :
+  apply_holding c cm cur s rates avgs =
+  (let? st := fold_left (fun acc hh => apply_held_height c cm cur rates avgs hh acc) (window s cur) (Ok (s, [])) in
+   let '(s1, pegs) := st in
+   if (c_V4OPRUpdate c <=? cur) && (cur <? c_V20HeightActivation c) then
+     match bank s1 !! cur with
+     | None => record_peg_requests c cur s1 pegs rates avgs (wrap64 (-1)) cur
+     | Some (amount, _, _) => record_peg_requests c cur s1 pegs rates avgs amount cur
+     end
+   else Ok s1).
+Proof. reflexivity. Qed.
 End WithCfg.
